@@ -4,7 +4,9 @@ from geoh5py.ui_json.utils import requires_value
 from geoh5py.ui_json.validation import InputValidation
 from geoh5py.ui_json.enforcers import EnforcerPool, TypeEnforcer, ValueEnforcer
 from geoh5py.ui_json.parameters import (Parameter, StringParameter, IntegerParameter, BoolParameter,
-                                         ValueRestrictedParameter, TypeRestrictedParameter)
+                                         ValueRestrictedParameter, TypeRestrictedParameter,
+                                         TypeUIDRestrictedParameter)
+from geoh5py.ui_json.forms import StringFormParameter, BoolFormParameter, IntegerFormParameter
 from geoh5py.shared.validators import TypeValidator, ValueValidator, OptionalValidator, RequiredValidator, ShapeValidator
 from geoh5py.shared.exceptions import BaseValidationError
 
@@ -27,18 +29,20 @@ def _accepts(fn, *a):
 
 
 
-def requires_value_matches_reference(opt: bool, en: bool, has_opt: bool, has_dep: bool, dep_opt: bool, dep_en: bool,
+def requires_value_matches_reference(opt: bool, en: bool, has_opt: bool, has_dep: bool, dep_opt_state: int, dep_en: bool,
                                      dep_val: bool, dtype_enabled: bool, has_group: bool, gopt: bool, gen: bool) -> bool:
     """
+    pre: 0 <= dep_opt_state < 3
     post: _
     """
+    dep_opt = dep_opt_state == 2          # 0: no 'optional' member, 1: explicit False, 2: True
     form = {"label": "a", "value": 1}
     if has_opt:
         form["optional"] = opt
         form["enabled"] = en
     dep = {"label": "d", "value": dep_val}
-    if dep_opt:
-        dep["optional"] = True
+    if dep_opt_state:
+        dep["optional"] = dep_opt
         dep["enabled"] = dep_en
     if has_dep:
         form["dependency"] = "d"
@@ -66,18 +70,20 @@ def requires_value_matches_reference(opt: bool, en: bool, has_opt: bool, has_dep
         exp = True
     return bool(got) == bool(exp)
 
-def requires_value_matches_reference__reach(opt: bool, en: bool, has_opt: bool, has_dep: bool, dep_opt: bool, dep_en: bool,
+def requires_value_matches_reference__reach(opt: bool, en: bool, has_opt: bool, has_dep: bool, dep_opt_state: int, dep_en: bool,
                                      dep_val: bool, dtype_enabled: bool, has_group: bool, gopt: bool, gen: bool) -> bool:
     """
+    pre: 0 <= dep_opt_state < 3
     post: False
     """
+    dep_opt = dep_opt_state == 2          # 0: no 'optional' member, 1: explicit False, 2: True
     form = {"label": "a", "value": 1}
     if has_opt:
         form["optional"] = opt
         form["enabled"] = en
     dep = {"label": "d", "value": dep_val}
-    if dep_opt:
-        dep["optional"] = True
+    if dep_opt_state:
+        dep["optional"] = dep_opt
         dep["enabled"] = dep_en
     if has_dep:
         form["dependency"] = "d"
@@ -374,6 +380,250 @@ def parameter_restricted_stateless_and_rejection_keeps_value__reach(i0: int, i1:
         return False                      # a rejected assignment changed the stored value
     fresh = mk()
     return assign(p, v2) == assign(fresh, v2)
+
+
+
+def requires_value_blank_group_name(gsel: int, osel: int, gopt: bool, gen: bool, oopt: bool, oen: bool, has_opt: bool, en: bool) -> bool:
+    """
+    pre: 0 <= gsel < 4 and 0 <= osel < 3
+    post: _
+    """
+    names = ["", "G", "0", None]                  # None: the parameter has no group member
+    onames = ["H", "", "G"]
+    form = {"label": "a", "value": 1}
+    if has_opt:
+        form["optional"] = True
+        form["enabled"] = en
+    mate = {"label": "m", "value": 1}
+    gname = names[gsel]
+    if gname is not None:
+        form["group"] = gname
+        mate["group"] = gname
+        if gopt:
+            mate["groupOptional"] = True
+            mate["enabled"] = gen
+    other = {"label": "o", "value": 1, "group": onames[osel]}
+    if oopt:
+        other["groupOptional"] = True
+        other["enabled"] = oen
+    ui = {"p": form, "m": mate, "o": other}
+    got = requires_value(ui, "p")
+    # the group of p is the set of forms whose group member EQUALS p's; a group is optional-and-disabled when one of its
+    # members carries groupOptional and is not enabled
+    exp_group_off = False
+    if gname is not None:
+        members = [f for f in (form, mate, other) if f.get("group", None) == gname]
+        flagged = [f for f in members if f.get("groupOptional", False)]
+        exp_group_off = bool(flagged) and not flagged[0].get("enabled", True)
+    if exp_group_off:
+        exp = False
+    elif has_opt:
+        exp = en
+    else:
+        exp = True
+    return bool(got) == bool(exp)
+
+def requires_value_blank_group_name__reach(gsel: int, osel: int, gopt: bool, gen: bool, oopt: bool, oen: bool, has_opt: bool, en: bool) -> bool:
+    """
+    pre: 0 <= gsel < 4 and 0 <= osel < 3
+    post: False
+    """
+    names = ["", "G", "0", None]                  # None: the parameter has no group member
+    onames = ["H", "", "G"]
+    form = {"label": "a", "value": 1}
+    if has_opt:
+        form["optional"] = True
+        form["enabled"] = en
+    mate = {"label": "m", "value": 1}
+    gname = names[gsel]
+    if gname is not None:
+        form["group"] = gname
+        mate["group"] = gname
+        if gopt:
+            mate["groupOptional"] = True
+            mate["enabled"] = gen
+    other = {"label": "o", "value": 1, "group": onames[osel]}
+    if oopt:
+        other["groupOptional"] = True
+        other["enabled"] = oen
+    ui = {"p": form, "m": mate, "o": other}
+    got = requires_value(ui, "p")
+    # the group of p is the set of forms whose group member EQUALS p's; a group is optional-and-disabled when one of its
+    # members carries groupOptional and is not enabled
+    exp_group_off = False
+    if gname is not None:
+        members = [f for f in (form, mate, other) if f.get("group", None) == gname]
+        flagged = [f for f in members if f.get("groupOptional", False)]
+        exp_group_off = bool(flagged) and not flagged[0].get("enabled", True)
+    if exp_group_off:
+        exp = False
+    elif has_opt:
+        exp = en
+    else:
+        exp = True
+    return bool(got) == bool(exp)
+
+
+
+def form_string_member_rejection_leaves_form_unchanged(mi: int, i1: int, i2: int) -> bool:
+    """
+    pre: 0 <= mi < 6 and 0 <= i1 < 8 and i2 == i1
+    post: _
+    """
+    kind = 0
+    member = ["optional", "enabled", "group", "dependency", "tooltip", "main"][mi]
+    mk = [lambda: StringFormParameter("p", value="x", label="l"), lambda: BoolFormParameter("p", value=True, label="l"),
+          lambda: IntegerFormParameter("p", value=1, label="l")][kind]
+    v1, v2 = ALPHA[i1], ALPHA[i2]
+    def assign(f, v):
+        try:
+            setattr(f, member, v)
+            return True
+        except BaseValidationError:
+            return False
+    used = mk()
+    before_form, before_active = dict(used.form()), list(used.active)
+    ok1 = assign(used, v1)
+    if not ok1 and (dict(used.form()) != before_form or list(used.active) != before_active):
+        return False                      # a rejected member assignment changed the form
+    if ok1 and not (member in used.active and used.form()[member] == v1):
+        return False
+    fresh = mk()
+    return assign(used, v2) == assign(fresh, v2)
+
+def form_string_member_rejection_leaves_form_unchanged__reach(mi: int, i1: int, i2: int) -> bool:
+    """
+    pre: 0 <= mi < 6 and 0 <= i1 < 8 and i2 == i1
+    post: False
+    """
+    kind = 0
+    member = ["optional", "enabled", "group", "dependency", "tooltip", "main"][mi]
+    mk = [lambda: StringFormParameter("p", value="x", label="l"), lambda: BoolFormParameter("p", value=True, label="l"),
+          lambda: IntegerFormParameter("p", value=1, label="l")][kind]
+    v1, v2 = ALPHA[i1], ALPHA[i2]
+    def assign(f, v):
+        try:
+            setattr(f, member, v)
+            return True
+        except BaseValidationError:
+            return False
+    used = mk()
+    before_form, before_active = dict(used.form()), list(used.active)
+    ok1 = assign(used, v1)
+    if not ok1 and (dict(used.form()) != before_form or list(used.active) != before_active):
+        return False                      # a rejected member assignment changed the form
+    if ok1 and not (member in used.active and used.form()[member] == v1):
+        return False
+    fresh = mk()
+    return assign(used, v2) == assign(fresh, v2)
+
+
+
+def form_bool_member_rejection_leaves_form_unchanged(mi: int, i1: int, i2: int) -> bool:
+    """
+    pre: 0 <= mi < 6 and 0 <= i1 < 8 and i2 == i1
+    post: _
+    """
+    kind = 1
+    member = ["optional", "enabled", "group", "dependency", "tooltip", "main"][mi]
+    mk = [lambda: StringFormParameter("p", value="x", label="l"), lambda: BoolFormParameter("p", value=True, label="l"),
+          lambda: IntegerFormParameter("p", value=1, label="l")][kind]
+    v1, v2 = ALPHA[i1], ALPHA[i2]
+    def assign(f, v):
+        try:
+            setattr(f, member, v)
+            return True
+        except BaseValidationError:
+            return False
+    used = mk()
+    before_form, before_active = dict(used.form()), list(used.active)
+    ok1 = assign(used, v1)
+    if not ok1 and (dict(used.form()) != before_form or list(used.active) != before_active):
+        return False                      # a rejected member assignment changed the form
+    if ok1 and not (member in used.active and used.form()[member] == v1):
+        return False
+    fresh = mk()
+    return assign(used, v2) == assign(fresh, v2)
+
+def form_bool_member_rejection_leaves_form_unchanged__reach(mi: int, i1: int, i2: int) -> bool:
+    """
+    pre: 0 <= mi < 6 and 0 <= i1 < 8 and i2 == i1
+    post: False
+    """
+    kind = 1
+    member = ["optional", "enabled", "group", "dependency", "tooltip", "main"][mi]
+    mk = [lambda: StringFormParameter("p", value="x", label="l"), lambda: BoolFormParameter("p", value=True, label="l"),
+          lambda: IntegerFormParameter("p", value=1, label="l")][kind]
+    v1, v2 = ALPHA[i1], ALPHA[i2]
+    def assign(f, v):
+        try:
+            setattr(f, member, v)
+            return True
+        except BaseValidationError:
+            return False
+    used = mk()
+    before_form, before_active = dict(used.form()), list(used.active)
+    ok1 = assign(used, v1)
+    if not ok1 and (dict(used.form()) != before_form or list(used.active) != before_active):
+        return False                      # a rejected member assignment changed the form
+    if ok1 and not (member in used.active and used.form()[member] == v1):
+        return False
+    fresh = mk()
+    return assign(used, v2) == assign(fresh, v2)
+
+
+
+def form_integer_member_rejection_leaves_form_unchanged(mi: int, i1: int, i2: int) -> bool:
+    """
+    pre: 0 <= mi < 6 and 0 <= i1 < 8 and i2 == i1
+    post: _
+    """
+    kind = 2
+    member = ["optional", "enabled", "group", "dependency", "tooltip", "main"][mi]
+    mk = [lambda: StringFormParameter("p", value="x", label="l"), lambda: BoolFormParameter("p", value=True, label="l"),
+          lambda: IntegerFormParameter("p", value=1, label="l")][kind]
+    v1, v2 = ALPHA[i1], ALPHA[i2]
+    def assign(f, v):
+        try:
+            setattr(f, member, v)
+            return True
+        except BaseValidationError:
+            return False
+    used = mk()
+    before_form, before_active = dict(used.form()), list(used.active)
+    ok1 = assign(used, v1)
+    if not ok1 and (dict(used.form()) != before_form or list(used.active) != before_active):
+        return False                      # a rejected member assignment changed the form
+    if ok1 and not (member in used.active and used.form()[member] == v1):
+        return False
+    fresh = mk()
+    return assign(used, v2) == assign(fresh, v2)
+
+def form_integer_member_rejection_leaves_form_unchanged__reach(mi: int, i1: int, i2: int) -> bool:
+    """
+    pre: 0 <= mi < 6 and 0 <= i1 < 8 and i2 == i1
+    post: False
+    """
+    kind = 2
+    member = ["optional", "enabled", "group", "dependency", "tooltip", "main"][mi]
+    mk = [lambda: StringFormParameter("p", value="x", label="l"), lambda: BoolFormParameter("p", value=True, label="l"),
+          lambda: IntegerFormParameter("p", value=1, label="l")][kind]
+    v1, v2 = ALPHA[i1], ALPHA[i2]
+    def assign(f, v):
+        try:
+            setattr(f, member, v)
+            return True
+        except BaseValidationError:
+            return False
+    used = mk()
+    before_form, before_active = dict(used.form()), list(used.active)
+    ok1 = assign(used, v1)
+    if not ok1 and (dict(used.form()) != before_form or list(used.active) != before_active):
+        return False                      # a rejected member assignment changed the form
+    if ok1 and not (member in used.active and used.form()[member] == v1):
+        return False
+    fresh = mk()
+    return assign(used, v2) == assign(fresh, v2)
 
 
 
